@@ -165,7 +165,8 @@ fn canon_space(quick: bool) -> Vec<Canon> {
     for l in ["alpha", "beta", "rc"] { for n in ["0", "1", m32] { pres.push(Some((l, n))); } }
     let posts: Vec<Option<&str>> = vec![None, Some("0"), Some("5"), Some(m32)];
     let devs: Vec<Option<&str>> = vec![None, Some("0"), Some("9")];
-    let builds: Vec<&'static str> = if quick { vec!["", "a", "a.1", "g1a2b3c"] } else { vec!["", "a", "a.1", "g1a2b3c", "1", "x.y.z"] };
+    // identifiers as zerv emits them: dot-separated lower-case alphanumerics, incl. hash-like ones that start with 0
+    let builds: Vec<&'static str> = if quick { vec!["", "a", "a.1", "g1a2b3c", "0a7", "00ff.5"] } else { vec!["", "a", "a.1", "g1a2b3c", "1", "x.y.z", "0a7", "00ff.5", "0a7f3c1.0.00x", "main.2.g0a1b2c3"] };
     let mut out = vec![];
     for x in &nums { for y in &nums { for z in &nums { for e in &epochs { for p in &pres { for po in &posts { for d in &devs { for b in &builds {
         out.push(Canon { core: [x.to_string(), y.to_string(), z.to_string()], epoch: e.map(String::from), pre: p.map(|(l, n)| (l, n.to_string())), post: po.map(String::from), dev: d.map(String::from), build: b });
